@@ -411,8 +411,19 @@ fn gen_header(ex: &Exchange, t: &mut Tape) -> (String, Option<Vec<u8>>) {
     let (id, kidx) = ex.keys[ex.used];
     let (plain, _) = authentic_etag(key(kidx), &ex.req, &ex.resp, id, &ex.nonce);
     let full = wrap_etag(&apply_hexcase(&plain, ex.hexcase), ex.wrap).into_bytes();
-    match t.weighted(&[2, 3, 2, 2, 1, 1, 1]) {
+    match t.weighted(&[2, 3, 2, 2, 1, 1, 1, 3]) {
         0 => ("authentic".into(), Some(full)),
+        7 => {
+            // a short token inserted anywhere, the very end included
+            let mut v = full.clone();
+            let i = t.choose(v.len() + 1);
+            const TOKS: [&str; 10] = [":", ":x", ":00", "\"", " ", "W/", "0", "ff", "::", ","];
+            let tok = *t.pick(&TOKS);
+            for (k, b) in tok.bytes().enumerate() {
+                v.insert(i + k, b);
+            }
+            ("token inserted".into(), Some(v))
+        }
         1 => {
             // replace one byte by an interesting character
             let mut v = full.clone();
